@@ -129,6 +129,9 @@ package core
 //@   call downloadBundleDescriptor#1 bind de = $ret1
 //@   send output#1 assert [missing-descriptor-is-not-an-error] de_set && !errIs(de, iface(storagestatus.ErrNotExists))
 //@   send output#2 assert [only-fetched-bundles] de_set && de == nil
+// every key yields one event, except a key whose descriptor does not exist (an upload in progress or interrupted):
+// nothing else is skipped silently
+//@   loop 1 step [only-a-missing-descriptor-is-skipped] sent(output) == prev(sent(output)) + 1 || (de_set && de != nil && errIs(de, iface(storagestatus.ErrNotExists)))
 
 //@ func RepoExists
 //@   requires stores != nil && getMetaStore(stores) != nil
@@ -155,6 +158,27 @@ package core
 
 // ---- key listing (C07) --------------------------------------------------------------------------
 
+// mergeKeys (diamonds and splits have a "running" and a "done" descriptor; one key per object is listed, the done
+// one when both exist). The done key sorts first and may close a page while its running twin opens the next:
+// what is pending must survive the page boundary, so there is ONE pending map for the whole listing. Per key: a
+// final state seen earlier wins over the running state that follows, a final state alone waits (nothing listed
+// yet), a running state alone is listed as it is; each batch goes out as merged.
+//@ func mergeKeys
+//@   loop 1 step [one-pending-map-for-the-whole-listing] states == prev(states)
+// what is pending is always a lone final state (a running state is listed at once, a second state settles the object)
+//@   loop 1 invariant [pending-are-lone-final-states] forall k string :: has(states, k) ==> states[k].count == 1 && states[k].isFinal
+//@   loop 2 invariant [pending-are-lone-final-states] forall k string :: has(states, k) ==> states[k].count == 1 && states[k].isFinal
+//@   loop 2 step [a-final-state-seen-earlier-wins] erp == nil && (apc.SplitID != "" || apc.DiamondID != "") && prev(has(states, apc.DiamondID + apc.SplitID)) && prev(states[apc.DiamondID + apc.SplitID].isFinal) && !apc.IsFinalState ==> len(filtered) == prev(len(filtered)) + 1 && filtered[len(filtered)-1] == prev(states[apc.DiamondID + apc.SplitID].key)
+//@   loop 2 step [a-lone-final-state-waits-for-its-twin] erp == nil && (apc.SplitID != "" || apc.DiamondID != "") && !prev(has(states, apc.DiamondID + apc.SplitID)) && apc.IsFinalState ==> len(filtered) == prev(len(filtered)) && has(states, apc.DiamondID + apc.SplitID) && states[apc.DiamondID + apc.SplitID].isFinal && states[apc.DiamondID + apc.SplitID].key == key
+//@   loop 2 step [a-running-state-alone-is-listed] erp == nil && (apc.SplitID != "" || apc.DiamondID != "") && !prev(has(states, apc.DiamondID + apc.SplitID)) && !apc.IsFinalState ==> len(filtered) == prev(len(filtered)) + 1 && filtered[len(filtered)-1] == key && !has(states, apc.DiamondID + apc.SplitID)
+//@   loop 2 step [other-objects-stay-pending] forall k string :: k != apc.DiamondID + apc.SplitID && prev(has(states, k)) ==> has(states, k) && states[k] == prev(states[k])
+//@   only append 1
+//@   only delete 1
+//@   only send:outputChan 1
+//@   call append#1 assert [emitted-when-settled] keyState.count > 1 || (keyState.count == 1 && !keyState.isFinal)
+//@   call append#1 assert [emits-retained] $1[0] == retained
+//@   send outputChan#1 assert [batch-out] $val.keys == filtered && $val.err == err
+
 // fetchKeys forwards every page unchanged and stops without error/interrupt only at the last page
 //@ func fetchKeys
 //@   recv doneChan flag interrupted
@@ -162,16 +186,6 @@ package core
 //@   send keyBatchChan#1 assert [error-page] $val.err == err && err != nil
 //@   send keyBatchChan#3 assert [page] $val.keys == ks && $val.err == nil && len(ks) > 0
 //@   ensures [complete] !interrupted && itErr_set && itErr == nil ==> next == ""
-
-// merging the states of one diamond/split: a key is emitted at one place only, when its object is
-// settled (a second state was seen, or a lone running state); a final state seen earlier wins
-//@ func mergeKeys
-//@   only append 1
-//@   only delete 1
-//@   only send:outputChan 1
-//@   call append#1 assert [emitted-when-settled] keyState.count > 1 || (keyState.count == 1 && !keyState.isFinal)
-//@   call append#1 assert [emits-retained] $1[0] == retained
-//@   send outputChan#1 assert [batch-out] $val.keys == filtered && $val.err == err
 
 // keep exactly the keys whose base name starts with the filter; token and error pass through
 //@ func basenameKeyFilter$1
@@ -306,8 +320,23 @@ package core
 //@   call KeysPrefix#1 assert [listing] pfx_set && $prefix == pfx && $delimiter == "" && $token == next
 
 // a listed label is resolved under the name parsed from its key, and a descriptor that disagrees is an error
+// every listed key yields exactly one event - a label or the error met - so that a label that could not be
+// read makes the listing fail instead of silently shortening it (squash decides what to delete from this list)
 //@ func getLabelAsync
+//@   loop 1 step [one-event-per-listed-key] sent(output) == prev(sent(output)) + 1
+//@   call DownloadDescriptor#1 bind de = $ret0
+//@   send output#2 assert [a-failed-read-is-reported-as-it-is] de_set && de != nil && $val.err == de
 //@   send output#4 assert [named-as-key] $val.label.Name == apc.LabelName
+
+// listing repositories: every key yields one event, except a key whose descriptor does not exist
+//@ func getRepoAsync
+//@   call Is#1 assert [sentinel] $target == iface(storagestatus.ErrNotExists)
+//@   call Is#1 assert [err] de_set && $err == de
+//@   call getRepoDescriptorByRepoName#1 assert [of-the-listed-repo] $1 == apc.Repo && $0 == stores
+//@   call getRepoDescriptorByRepoName#1 bind de = $ret1
+//@   send output#2 assert [missing-descriptor-is-not-an-error] de_set && !errIs(de, iface(storagestatus.ErrNotExists))
+//@   send output#3 assert [only-fetched-repos] de_set && de == nil
+//@   loop 1 step [only-a-missing-descriptor-is-skipped] sent(output) == prev(sent(output)) + 1 || (de_set && de != nil && errIs(de, iface(storagestatus.ErrNotExists)))
 
 // ---- repository operations touch only their own repository's keys (C09) ----------------------------
 //@ func CreateRepo
@@ -619,6 +648,9 @@ package core
 //@   call readDiamond#1 bind de = $ret1
 //@   send output#1 assert [missing-descriptor-is-not-an-error] de_set && !errIs(de, iface(storagestatus.ErrNotExists))
 //@   send output#2 assert [only-fetched-diamonds] de_set && de == nil
+// every key yields one event, except a key whose descriptor does not exist (an upload in progress or interrupted):
+// nothing else is skipped silently
+//@   loop 1 step [only-a-missing-descriptor-is-skipped] sent(output) == prev(sent(output)) + 1 || (de_set && de != nil && errIs(de, iface(storagestatus.ErrNotExists)))
 
 //@ func readSplit
 //@   requires store != nil
@@ -635,6 +667,9 @@ package core
 //@   call readSplit#1 bind de = $ret1
 //@   send output#1 assert [missing-descriptor-is-not-an-error] de_set && !errIs(de, iface(storagestatus.ErrNotExists))
 //@   send output#2 assert [only-fetched-splits] de_set && de == nil
+// every key yields one event, except a key whose descriptor does not exist (an upload in progress or interrupted):
+// nothing else is skipped silently
+//@   loop 1 step [only-a-missing-descriptor-is-skipped] sent(output) == prev(sent(output)) + 1 || (de_set && de != nil && errIs(de, iface(storagestatus.ErrNotExists)))
 
 // ---- state of a diamond / split as read back (C12: "refused once the diamond is done or canceled")
 // the final-state descriptor is read first; the initial-state one only when the final one DOES NOT
@@ -717,6 +752,14 @@ package core
 //@   call deleteBundleEntry#1 assert [removed-is-deleted] de.Type == DiffEntryTypeDel && $bundleEntry == de.Existing && $bundle == bundleDest
 //@   call downloadBundleEntryOverwrite#1 assert [changed-is-replaced] de.Type == DiffEntryTypeDif && $bundleEntry == de.Additional && $bundle == bundleDest && $fs == fs
 //@   call diffBundles#1 assert [destination-against-source] $bundleExisting == bundleDest && $bundleAdditional == bundle
+// the done signal is sent only after every slot of the download semaphore was taken back (each worker holds
+// one slot until it returns): otherwise the caller installs the new metadata, and reports success, while the
+// last files are still being written - or have failed
+//@   call downloadBundleEntry#1 assert [holds-a-slot] $chans.concurrencyControl == concurrencyControl
+//@   call downloadBundleEntry#2 assert [holds-a-slot] $chans.concurrencyControl == concurrencyControl
+//@   call deleteBundleEntry#1 assert [holds-a-slot] $chans.concurrencyControl == concurrencyControl
+//@   call downloadBundleEntryOverwrite#1 assert [holds-a-slot] $chans.concurrencyControl == concurrencyControl
+//@   send chans.doneOk#1 assert [after-all-workers-returned] i >= cap(concurrencyControl)
 
 // single file: every entry with that path (and no other) is fetched; none found is an error
 //@ func unpackDataFile
